@@ -70,6 +70,16 @@ def build(pid, cfg, outdir):
     return binp, time.time() - t0
 
 
+VMEM_GB = [32]  # address-space limit of every test process (GiB); set from prop.json "vmem_gb"
+
+
+def _limit():
+    import resource
+    if VMEM_GB[0]:
+        lim = int(VMEM_GB[0] * (1 << 30))
+        resource.setrlimit(resource.RLIMIT_AS, (lim, lim))
+
+
 def run_proc(binp, pkgdir, args, env, outdir, timeout):
     os.makedirs(outdir, exist_ok=True)
     e = goenv()
@@ -79,7 +89,8 @@ def run_proc(binp, pkgdir, args, env, outdir, timeout):
     t0 = time.time()
     with open(log, "w") as lf:
         try:
-            p = subprocess.run([binp] + args, cwd=pkgdir, env=e, stdout=lf, stderr=subprocess.STDOUT, timeout=timeout)
+            p = subprocess.run([binp] + args, cwd=pkgdir, env=e, stdout=lf, stderr=subprocess.STDOUT, timeout=timeout,
+                               preexec_fn=_limit)
             rc = p.returncode
         except subprocess.TimeoutExpired:
             rc = -999
@@ -123,6 +134,7 @@ def main():
         say("unknown property", pid)
         return 2
     cfg = PROPS[pid]
+    VMEM_GB[0] = 0 if cfg.get("race") else cfg.get("vmem_gb", 32)
     mode = sys.argv[2]
     seed = int(os.environ.get("VERIF_SEED", "1") or "1")
     pkgdir = os.path.join(ROOT, cfg["pkg"])
